@@ -946,6 +946,7 @@ func genG1(seed uint64, prop string) *Scenario {
 		nsteps = 20 + g.pick(40) // thorough tier: long histories (more turnover of the small key space, more hand-overs)
 	}
 	sess := 0
+	pendingLeave := false
 	pFlush := g.pick(4)    // in 1/16ths
 	pHandover := g.pick(3) // in 1/16ths
 	if prop == "C08" {
@@ -991,14 +992,22 @@ func genG1(seed uint64, prop string) *Scenario {
 			sc.Steps = append(sc.Steps, Step{T: "flush", Flush: fs})
 		case x < pFlush+pHandover:
 			sess++
-			hmode := g.pick(3) // 0: the old session stays connected, 1: it half-closes, 2: no hand-over - the primary raises its own id
+			hmode := g.pick(4) // 0: the old session stays connected, 1: it half-closes, 2: no hand-over - the primary raises its own id, 3: like 0, but the new session announces the SAME id (a tie moves the role)
 			sc.Steps = append(sc.Steps, Step{T: "handover", Sess: sess, A: hmode})
+			if hmode == 0 || hmode == 3 {
+				pendingLeave = true
+			}
 			if hmode != 2 && g.chance(1, 3) {
 				// a new client numbers its operations from 1 again (as every fluent client does): ids of the previous
 				// session's operations - possibly still held - come round again
 				g.nextID = 1
 			}
 		default:
+			if pendingLeave && i > 0 && g.chance(1, 2) {
+				// the superseded session that stayed connected goes away now, between two requests of the primary
+				sc.Steps = append(sc.Steps, Step{T: "leave", A: g.pick(2)})
+				pendingLeave = false
+			}
 			if g.chance(1, 8) && len(g.nis) > 1 {
 				// cross-instance reference, flush of only the group's instance, group re-created, deletes attempted
 				a, b := g.nis[g.pick(len(g.nis))], g.nis[g.pick(len(g.nis))]
